@@ -35,7 +35,7 @@ GLOBAL = '_global_state'
 def run(ctx):
     for fn in (r1_overlay_lifetime, r2_inline_never_persistent, r3_overlay_read_before_write, r4_lookup_order,
                r5_run_loop, r6_comments_only, r7_defaults_path, r8_break_placement, r9_inline_classification, r10_effects_at_call_time, r11_statement_starts,
-               r12_every_effect_applied, r13_overlay_copy_on_first_write):
+               r12_every_effect_applied, r13_overlay_copy_on_first_write, r14_directive_arguments):
         ctx.rep.rule(fn, ctx)
 
 
@@ -965,6 +965,37 @@ def r13_overlay_copy_on_first_write(ctx):
     rep.floor('C04.R13', 'copies of a persistent set into the working state', n_copies, 1)
 
 
+def r14_directive_arguments(ctx):
+    """the conditions of `REQUIRES(a, b)` are the text strictly between the parentheses and the option name is the text before the opening one:
+    with the opening parenthesis left in the first argument (`(a`) no requirement is ever recognised as met or named again by -REQUIRES"""
+    rep = ctx.rep
+    f = ctx.func('xdoctest.directive.parse_directive_optstr')
+    g = ctx.cfg(f)
+    rd = ctx.rd(f)
+    opens = {d.name for d in rd.defs if isinstance(d.value, ast.Call) and isinstance(d.value.func, ast.Attribute) and d.value.func.attr in ('find', 'index') and d.value.args
+             and isinstance(d.value.args[0], ast.Constant) and d.value.args[0].value == '('}
+    need(opens, 'C04.R14: the position of the opening parenthesis is not computed by find/index')
+    n = 0
+    for x in walk_scope(f.node):
+        if not (isinstance(x, ast.Subscript) and isinstance(x.slice, ast.Slice) and isinstance(x.ctx, ast.Load)):
+            continue
+        lo, hi = x.slice.lower, x.slice.upper
+        lo_names = {y.id for y in ast.walk(lo) if isinstance(y, ast.Name)} if lo is not None else set()
+        hi_names = {y.id for y in ast.walk(hi) if isinstance(y, ast.Name)} if hi is not None else set()
+        if lo_names & opens:
+            n += 1
+            ok = isinstance(lo, ast.BinOp) and isinstance(lo.op, ast.Add) and isinstance(lo.left, ast.Name) and lo.left.id in opens and isinstance(lo.right, ast.Constant) and lo.right.value == 1
+            rep.ob('C04.R14', ctx.loc(f, x), ctx.src(x, 70), ok,
+                   'the arguments start one past the opening parenthesis' if ok else
+                   'the argument text starts at %s, not one past the opening parenthesis: the first condition of REQUIRES(...) carries the parenthesis (or loses its first character), so it is '
+                   'never met and never removed' % ctx.src(lo), anchor=f.qualname)
+        elif hi is not None and lo is None and hi_names & opens:
+            n += 1
+            ok = isinstance(hi, ast.Name)
+            rep.ob('C04.R14', ctx.loc(f, x), ctx.src(x, 70), ok, 'the option name is the text before the opening parenthesis' if ok else 'the option name is not cut at the opening parenthesis (%s)' % ctx.src(hi), anchor=f.qualname)
+    rep.floor('C04.R14', 'slices around the parentheses of a directive', n, 2)
+
+
 # ---------------------------------------------------------------------------
 from ..selftest import fire, silent      # noqa: E402
 
@@ -972,6 +1003,7 @@ DE = 'xdoctest/doctest_example.py'
 DI = 'xdoctest/directive.py'
 SA = 'xdoctest/static_analysis.py'
 VARIANTS = [
+    fire('requires-argument-keeps-the-parenthesis', 'C04.R14', ('xdoctest/directive.py', "        body = optpart[paren_pos + 1:optpart.find(')')]\n", "        body = optpart[paren_pos + 0:optpart.find(')')]\n")),
     fire('noop-effect-ends-the-directive', 'C04.R12', ('xdoctest/directive.py', "                if action == 'noop':\n                    continue\n", "                if action == 'noop':\n                    break\n")),
     fire('overlay-recopied-for-every-inline-effect', 'C04.R13', ('xdoctest/directive.py', "                elif action == 'set.add':\n                    if key not in state:\n", "                elif action == 'set.add':\n                    if directive.inline:\n")),
     fire('inline-iff-no-comment-line', 'C04.R9', (DI, "        inline = not all(line.strip().startswith('#')\n", "        inline = not any(line.strip().startswith('#')\n")),
